@@ -3,3 +3,6 @@ import MatidProps.C14
 import MatidProps.C15
 import MatidProps.C12
 import MatidProps.C08
+import MatidProps.C06
+import MatidProps.C05
+import MatidProps.C07
